@@ -10,7 +10,7 @@ AR/MA/ARMA class: ObsC15.tla.
 import numpy as np
 
 from .. import core, material as M, tlc, obs, zoo
-from ..kern_util import call_guard, cmp_vec, cmp_scalar, entry_variants
+from ..kern_util import fresh, call_guard, cmp_vec, cmp_scalar, entry_variants, np_int
 
 
 def replay_state(chk, st, cplx):
@@ -32,7 +32,7 @@ def replay_state(chk, st, cplx):
         chk._c15_counter = counter + 1
         for ename, xin, tol in entry_variants(xa, cplx, counter, full=chk.tier != 'quick'):
             tol = 1e-7 if tol < 1e-6 else 1e-3
-            ok, res = call_guard(ma, xin if isinstance(xin, list) else xin.copy(), Q, Mo)
+            ok, res = call_guard(ma, fresh(xin), Q, Mo)
             chk.evaluations += 1
             if not ok:
                 chk.violation('C15:ma:%s:raises:%s' % (mode, ename), 'ma raises %r in its domain (%s input)' % (res, ename), case)
@@ -133,7 +133,7 @@ def obs_events(chk):
         Mo = int(rng.randint(2, min(N - 1, 20) + 1))
         Q = int(rng.randint(1, Mo))
         ev = {'ev': 'ma', 'N': N, 'Q': Q, 'M': Mo, 'cplx': cplx}
-        ok, res = call_guard(ma, x.copy(), Q, Mo)
+        ok, res = call_guard(ma, x.copy(), np_int(Q, rep), np_int(Mo, rep + 1))
         ev['raised'] = not ok
         if ok:
             b, rho = res
@@ -153,7 +153,7 @@ def obs_events(chk):
         if not (lag + 2 * P - Qa <= N and 2 * Qa < N - P):
             continue
         ev = {'ev': 'arma', 'N': N, 'P': P, 'Q': Qa, 'lag': lag, 'cplx': cplx}
-        ok, res = call_guard(arma_estimate, x.astype(complex), P, Qa, lag)
+        ok, res = call_guard(arma_estimate, x.astype(complex), np_int(P, rep), np_int(Qa, rep + 1), np_int(lag, rep + 2))
         ev['raised'] = not ok
         if ok:
             a, b, rho = res
